@@ -112,7 +112,7 @@ def reader_shape(ctx, rule):
     allowed = {"0": "zero", "Shr(cur,1)": "drop-sign-bit", "Neg(cur)": "negate"}
     for v in ("BitAnd(31,enc)", "Rem(enc,32)"):
         for op in ("Add", "BitOr"):
-            allowed["%s(cur,try(Option::ok_or(i64::checked_shl(%s,shift),Error::VlqOverflow{})))" % (op, v)] = "accumulate"
+            allowed["%s(cur,try(i64::checked_shl(%s,shift)))" % (op, v)] = "accumulate"  # (`.ok_or(VlqOverflow)?` or let-else: the payload; the error kind is checked below)
     found = expect_defs(ctx, rule, body, cur, roles, allowed, ["zero", "accumulate"], "accumulator")
     expect_defs(ctx, rule, body, shift, roles, {"0": "zero", "Add(5,shift)": "step5"}, ["zero", "step5"], "shift")
     ctx.check(body.local_ty(cur) == "i64", rule, fn, "accumulator:i64", "the accumulator is 64 bits wide (13 digits fit, the 14th overflows the shift)")
@@ -227,6 +227,10 @@ def reader_shape(ctx, rule):
         used = [q.shape(body.expr_of_call(t), roles) for b2, t in body.calls() if b2 == bi or body.blocks[bi]["term"] is t]
         t = body.blocks[bi]["term"]
         ok = t["k"] == "call" and q.nice(t.get("callee")) in ("Option::ok_or", "Option::ok_or_else") and "checked_shl(" in q.shape(body.expr_of_call(t), roles)
+        if not ok:
+            # `let Some(shifted) = val.checked_shl(shift) else { fail!(VlqOverflow) }`: built where the checked shift is known to have failed
+            from rules.common import opt_fact as _of
+            ok = has_fact(body, bi, roles, *_of("none", "i64::checked_shl(*)"))
         ctx.check(ok, rule, fn, "VlqOverflow:only-from-checked_shl", "VlqOverflow is produced only by the failing checked shift (values of up to 13 digits are accepted)", ctx.site(body, bi, si))
     for bi, si in allv.get("VlqLeftover", []) + allv.get("VlqNoValues", []):
         ctx.check(bi not in in_loop, rule, fn, "end-of-input-errors", "leftover / no-values are decided after the whole segment was read", ctx.site(body, bi, si))
@@ -336,7 +340,10 @@ def writer_shape(ctx, rule):
     arg = 2
     expect_defs(ctx, rule, body, digit, roles,
                 {"BitAnd(31,num)": "low5", "Rem(num,32)": "low5", "BitOr(Shl(1,5),digit)": "set-cont", "BitOr(32,digit)": "set-cont",
-                 "Add(32,digit)": "set-cont"}, ["low5", "set-cont"], "digit")
+                 "Add(32,digit)": "set-cont",
+                 # the digit as one if/else value: `if num > 0 { low | (1 << 5) } else { low }`
+                 "BitOr(BitAnd(31,num),Shl(1,5))": "set-cont", "BitOr(Shl(1,5),BitAnd(31,num))": "set-cont", "BitOr(32,BitAnd(31,num))": "set-cont", "BitOr(BitAnd(31,num),32)": "set-cont"},
+                ["low5", "set-cont"], "digit")
     found = expect_defs(ctx, rule, body, num, roles,
                         {"Shl(arg2,1)": "positive", "Mul(2,arg2)": "positive",
                          "Add(1,Shl(Neg(arg2),1))": "negative",
@@ -374,7 +381,8 @@ def wrappers(ctx, rule):
         r = {vecs[0]: "RV"}
         calls = [q.shape(p.expr_of_call(t), r) for bi, t in p.calls() if t.get("resolved_local")]
         rets = sorted(sh for sh, _, _ in q.def_shapes(p, 0, r))
-        ok = calls == ["vlq::parse_vlq_segment_into(arg1,RV)"] and rets == ["FromResidual::from_residual(break(Try::branch(vlq::parse_vlq_segment_into(arg1,RV))))", "Result::Ok{0:RV}"]
+        ok = calls == ["vlq::parse_vlq_segment_into(arg1,RV)"] and rets in (["FromResidual::from_residual(break(Try::branch(vlq::parse_vlq_segment_into(arg1,RV))))", "Result::Ok{0:RV}"],
+                                                                           ["Result::Err{0:err(vlq::parse_vlq_segment_into(arg1,RV))}", "Result::Ok{0:RV}"])  # `?` or the explicit match handing the error on
     ctx.check(ok, rule, p.path, "parse:fresh-vector", "parse_vlq_segment decodes into a vector created in this call and returns it as it is (no state survives between calls, nothing is added or dropped)",
               detail=str([sh for sh, _, _ in q.def_shapes(p, 0, {})]))
     g = ctx.body("vlq::generate_vlq_segment")
